@@ -149,7 +149,7 @@ DecodeTags(D, k, b, res) ==
   IF res.panic \/ res.slow THEN {}
   ELSE LET r == DecEntry(D, k, b) IN
        IF r.st = "ok" THEN
-            (IF ~res.ok THEN {IF k = "CP" THEN "C11:valid_compound_rejected" ELSE "C04:valid_rejected"}
+            (IF ~res.ok THEN {"C04:valid_rejected"}
              ELSE IF res.out # r.v THEN {"C04:value"}
              ELSE {})
        ELSE IF r.st = "rej" THEN (IF res.ok THEN {IF k = "CP" THEN "C11:invalid_compound_accepted" ELSE RejTag(D, k, b)} ELSE {})
